@@ -42,6 +42,9 @@ pub fn catch<T>(f: impl FnOnce() -> T) -> Result<T, String> {
         }
     }
 }
+pub fn worker_index() -> usize {
+    rayon::current_thread_index().unwrap_or(0)
+}
 pub fn is_overflow(msg: &str) -> bool {
     msg.contains("RAT_OVERFLOW")
 }
